@@ -66,9 +66,12 @@ func c10(w *core.World, rep *core.Report) {
 	if rep.Broken != "" {
 		return
 	}
+	ex := rep.Explain
+	jobs = append(jobs, dispatchJobs(w, rep)...)
+	rep.Explain = ex + " The six dispatch functions are covered with the same obligations as in C05 (frame: only the family pointer is written on decode, nothing on encode; the returned octets are fresh)."
 	RunJobs(w, rep, jobs)
 	rep.Floor = 3000
 	rep.AddUnique(&rep.Assumptions,
 		"bytes.Buffer writes are modelled as reallocation: in-place reuse of spare capacity of a caller-supplied backing array is not distinguished from allocation",
-		"dispatcher-level purity (PlainNasEncode/Decode) is covered by C05's contracts")
+		"at the dispatchers the codecs are used through their derived contracts")
 }
